@@ -23,18 +23,18 @@ var r *explore.Run
 func ch(g string, w int) vaxis.Character { return vaxis.Character{Grapheme: g, Width: w} }
 
 var cellAlphabet = []vaxis.Cell{
-	{},                                  // 0: the zero cell
-	{Character: ch(" ", 1)},            // 1: Clear's space
-	{Character: ch("a", 1)},            // 2
-	{Character: ch("a", 1), Style: vaxis.Style{Attribute: vaxis.AttrBold, Foreground: vaxis.IndexColor(1)}},                                // 3
-	{Character: ch("a", 1), Style: vaxis.Style{Hyperlink: "http://x", HyperlinkParams: "id=1"}},                                             // 4
+	{},                      // 0: the zero cell
+	{Character: ch(" ", 1)}, // 1: Clear's space
+	{Character: ch("a", 1)}, // 2
+	{Character: ch("a", 1), Style: vaxis.Style{Attribute: vaxis.AttrBold, Foreground: vaxis.IndexColor(1)}},                                                        // 3
+	{Character: ch("a", 1), Style: vaxis.Style{Hyperlink: "http://x", HyperlinkParams: "id=1"}},                                                                    // 4
 	{Character: ch("b", 1), Style: vaxis.Style{Background: vaxis.RGBColor(0x5f, 0, 0), UnderlineStyle: vaxis.UnderlineCurly, UnderlineColor: vaxis.IndexColor(2)}}, // 5
-	{Character: ch("世", 2)},            // 6: explicit width
-	{Character: ch("世", 0)},            // 7: auto-measured
+	{Character: ch("世", 2)}, // 6: explicit width
+	{Character: ch("世", 0)}, // 7: auto-measured
 	{Character: ch("世", 2), Style: vaxis.Style{Attribute: vaxis.AttrReverse, Foreground: vaxis.IndexColor(9)}}, // 8
-	{Character: ch("​", 0)},        // 9: zero width
-	{Character: ch("é", 0)},       // 10: combining
-	{Character: ch("👩‍🚀", 0)},      // 11: ZWJ sequence
+	{Character: ch("​", 0)},   // 9: zero width
+	{Character: ch("é", 0)},  // 10: combining
+	{Character: ch("👩‍🚀", 0)}, // 11: ZWJ sequence
 }
 
 var cellNames = []string{"zero", "space", "a", "a-bold-red", "a-link", "b-bg-curly", "世/2", "世/auto", "世/2-rev", "ZWSP", "é", "ZWJ-emoji"}
@@ -531,21 +531,69 @@ func penSweep(cfgName string, prof refterm.Profile, shard, nshard int) {
 	}
 }
 
+// largeFrameSweep: frames of several tens of kilobytes (every cell of a 100x40 screen styled): whatever the
+// writer does with its buffer inside a frame, the pen the renderer tracks and the terminal's pen stay the same.
+func largeFrameSweep(cfgName string, prof refterm.Profile) {
+	cfg := &config{Name: cfgName, Cols: 100, Rows: 40, Prof: prof}
+	w, err := open(cfg)
+	if err != nil {
+		r.Fault("session: %v", err)
+	}
+	defer w.close()
+	win := w.s.Vx.Window()
+	paint := func(variant int) {
+		for y := 0; y < cfg.Rows; y++ {
+			for x := 0; x < cfg.Cols; x++ {
+				st := vaxis.Style{Background: vaxis.IndexColor(4), Foreground: vaxis.IndexColor(uint8(100 + 100*((x+variant)%2)))}
+				switch variant {
+				case 1:
+					st.Attribute = vaxis.AttrBold
+					st.UnderlineStyle = vaxis.UnderlineCurly
+					st.UnderlineColor = vaxis.RGBColor(1, 2, uint8(x))
+				case 2:
+					st.Hyperlink = "http://example.com/a/rather/long/link"
+					st.Background = vaxis.RGBColor(uint8(y), 20, 30)
+				}
+				c := vaxis.Cell{Character: ch(string(rune('a'+(x+y+variant)%26)), 1), Style: st}
+				win.SetCell(x, y, c)
+				w.m.SetCell(x, y, c)
+			}
+		}
+	}
+	for i := 0; i < 6; i++ {
+		paint(i % 3)
+		fin := frame{Finish: i / 3} // three Renders, then three Refreshes
+		if fin.Finish == 0 {
+			w.s.Vx.Render()
+		} else {
+			w.s.Vx.Refresh()
+		}
+		r.Count("large_frames", 1)
+		sig, why := w.check(fin, nil)
+		if sig != "" {
+			sig = strings.Replace(sig, "C01|", "C01|large-frame|", 1)
+			r.Violation(sig, i, map[string]any{"search": "large-frame", "profile": prof.String(), "frame": i, "finish": finishName(fin), "why": why})
+			return
+		}
+		r.Distinct(explore.Hash("large", cfgName, fmt.Sprint(i)))
+	}
+}
+
 // ---- main -----------------------------------------------------------------------------------
 
 func profiles() map[string]refterm.Profile {
 	gatingAll := refterm.Cap(1<<refterm.NumGatingCaps - 1)
 	mk := func(c refterm.Cap) refterm.Profile { return refterm.DefaultProfile(c, refterm.VersionOther) }
 	return map[string]refterm.Profile{
-		"none":       mk(0),
-		"all":        mk(gatingAll | refterm.CapSizeReports | refterm.CapDECRQSS),
-		"sync":       mk(refterm.CapSync),
-		"rgb":        mk(refterm.CapRGB),
-		"styledul":   mk(refterm.CapSmulx),
-		"explicitw":  mk(refterm.CapExplicitWidth | refterm.CapRGB),
-		"unicode":    mk(refterm.CapUnicodeCore | refterm.CapSync),
-		"inband":     mk(refterm.CapInBandResize),
-		"kitty":      refterm.DefaultProfile(refterm.CapRGB|refterm.CapSmulx|refterm.CapKittyKB, refterm.VersionKitty),
+		"none":      mk(0),
+		"all":       mk(gatingAll | refterm.CapSizeReports | refterm.CapDECRQSS),
+		"sync":      mk(refterm.CapSync),
+		"rgb":       mk(refterm.CapRGB),
+		"styledul":  mk(refterm.CapSmulx),
+		"explicitw": mk(refterm.CapExplicitWidth | refterm.CapRGB),
+		"unicode":   mk(refterm.CapUnicodeCore | refterm.CapSync),
+		"inband":    mk(refterm.CapInBandResize),
+		"kitty":     refterm.DefaultProfile(refterm.CapRGB|refterm.CapSmulx|refterm.CapKittyKB, refterm.VersionKitty),
 	}
 }
 
@@ -634,6 +682,11 @@ func main() {
 					penSweep(name, prof, idx, n)
 				}
 			}
+			for i, name := range []string{"none", "all", "rgb", "styledul", "sync"} {
+				if i%n == idx {
+					largeFrameSweep(name, profiles()[name])
+				}
+			}
 			r.WorkerDone()
 		}
 		r.Fault("unknown worker arg %q", arg)
@@ -656,7 +709,7 @@ func main() {
 	trans += r.Get("pen_pairs")
 	r.Finish(explore.Coverage{
 		States: states, Transitions: trans, Traces: trans, Evaluations: trans,
-		Rule:       "explicit-state BFS over (real Vaxis, reference terminal) pairs; transition = one frame (optional Clear/Fill, one SetCell/SetStyle/Print from a 12-cell alphabet, optional cursor request, then Render | Refresh | scramble+Refresh | resize); successor = replay of the frame path on a fresh session; state key = hash(renderer state dump, terminal dump, application record); plus a history-free sweep of ordered style pairs on a 2x1 screen. distinct = distinct canonical states + distinct style pairs that passed",
+		Rule:       "explicit-state BFS over (real Vaxis, reference terminal) pairs; transition = one frame (optional Clear/Fill, one SetCell/SetStyle/Print from a 12-cell alphabet, optional cursor request, then Render | Refresh | scramble+Refresh | resize); successor = replay of the frame path on a fresh session; state key = hash(renderer state dump, terminal dump, application record); plus a history-free sweep of ordered style pairs on a 2x1 screen. distinct = distinct canonical states + distinct style pairs that passed; large frames: a 100x40 screen with every cell styled (three style variants incl. RGB, styled underline and a hyperlink per cell; tens of kilobytes per frame), three Renders and three Refreshes per capability profile",
 		Exhaustive: exhaustive,
 		Bounds:     bounds,
 		Assumptions: []string{
